@@ -96,6 +96,6 @@ def run(ctx):
     def caps():
         sm = ctx.summ(SHA, 'SHA3.__init__')
         calls = [x for x in T.walk(sm.term()) if x[0] == 'call' and x[1] == ('attr', ('g', 'Keccak'), '__init__')]
-        got = sorted((dict(c[3]).get('c', T.NONE)[1], dict(c[3]).get('b', T.NONE)[1]) for c in calls)
+        got = sorted((T.kwargs_of(c).get('c', T.NONE)[1], T.kwargs_of(c).get('b', T.NONE)[1]) for c in calls)
         ctx.equal('SHA3 capacities', got, sorted((2 * s, 1600) for s in (224, 256, 384, 512)), ctx.where(SHA, 'SHA3.__init__'), 'capacity = 2 x digest size, b = 1600')
     ctx.guard('SHA3 capacities', caps)
